@@ -159,11 +159,16 @@ def rule_scope_order(prog):
                 for q in b["params"] for pp in hir.pat_bindings(q))
             is_none = lt.get("k") == "Path" and last(lt["res"].get("ctor_of", "")) == "None"
             n_sites += 1
-            if is_none and proc_here and _only_used_in_global_position(prog, b, st, parents):
-                # a global-only table next to the scoped one, consulted only where the syntactic position (type expression)
-                # admits nothing but a global entity: that is what SPL scoping asks for (clause `position` below)
-                is_none = False
-            out.add(b["d"], "LookupTable literal carries the local table of the procedure in scope", not (is_none and proc_here),
+            undec = False
+            if is_none and proc_here:
+                og = _only_used_in_global_position(prog, b, st, parents)
+                if og:
+                    # a global-only table next to the scoped one, consulted only where the syntactic position (type expression)
+                    # admits nothing but a global entity: that is what SPL scoping asks for (clause `position` below)
+                    is_none = False
+                elif og is None:
+                    undec = True   # chosen by a `match` on a position classification this rule cannot orient
+            out.add(b["d"], "LookupTable literal carries the local table of the procedure in scope", None if undec else not (is_none and proc_here),
                     bc.loc(st["sp"]), "a LookupTable without local table is built where a procedure is in scope: its parameters "
                     "and variables are invisible to whatever is resolved or proposed through it", ("literal",))
     # find_referenced_identifiers: global-first resolution (a GlobalTable lookup of the cursor ident anywhere in a
@@ -594,7 +599,7 @@ TT_ = "spl_frontend::tokens::TokenType::"
 def _markers_in(prog, root, crate):
     """Which syntactic-position tests does `root` (followed three levels into local callees) make?"""
     ms = set()
-    for n in hir.nodes_deep(prog, root, 3, crate=crate):
+    for n in hir.nodes_deep(prog, root, 5, crate=crate):
         pats = []
         k = n.get("k")
         if k == "Match":
@@ -648,6 +653,40 @@ def _controls(b, node, parents):
     return res
 
 
+def _call_sites(prog, b, cmap):
+    """(body, call node, parents) of every place where function b is invoked: direct calls, and - when b is handed to a local
+    function as a function value (`goto(doctx, params, declared_at)`) - the calls of the receiving parameter inside that function."""
+    bc = b["_crate"]
+    res = []
+    for cp in sorted(cmap.get(b["p"], set()) - {b["p"]}):
+        cb = prog.body(cp)
+        if cb is None or cb["_crate"] is not bc:
+            continue
+        for cn, cparents in hir.walk(cb["body"]):
+            if cn.get("k") not in ("Call", "MethodCall"):
+                continue
+            if hir.callee(cn) == b["p"]:
+                res.append((cb, cn, cparents))
+                continue
+            args_ = ([cn["recv"]] if cn.get("k") == "MethodCall" else []) + list(cn.get("args") or [])
+            for j_, a_ in enumerate(args_):
+                a_ = hir.strip(a_)
+                if a_.get("k") == "Path" and a_["res"].get("k") == "Def" and (a_["res"].get("rp") or a_["res"].get("p")) == b["p"]:
+                    hb = hir.local_callee_body(prog, cn)
+                    if hb is None or hb["_crate"] is not bc or j_ >= len(hb["params"]) or hb["params"][j_].get("k") != "Binding":
+                        continue
+                    pid = hb["params"][j_]["id"]
+                    # async fns re-bind their parameters inside the coroutine (`let f = f;`)
+                    ids = {pid}
+                    for l_ in hir.nodes(hb["body"], "Let"):
+                        if l_["pat"].get("k") == "Binding" and l_.get("init") is not None and (hir.path_local(hir.strip(l_["init"])) or {}).get("id") in ids:
+                            ids.add(l_["pat"]["id"])
+                    for n2, p2 in hir.walk(hb["body"]):
+                        if n2.get("k") == "Call" and (hir.path_local(hir.strip(n2["f"])) or {}).get("id") in ids:
+                            res.append((hb, n2, p2))
+    return res
+
+
 def _position_markers_at(prog, b, node, parents, cmap, depth):
     bc = b["_crate"]
     ms = set()
@@ -658,13 +697,9 @@ def _position_markers_at(prog, b, node, parents, cmap, depth):
                 for x in hir.nodes(r)}
     if depth > 0 and (operands & param_ids):
         # a helper that receives the identifier / the context: what its callers did before the call counts as well (all of them)
-        callers = [prog.body(c) for c in sorted(cmap.get(b["p"], set()) - {b["p"]})]
-        callers = [cb for cb in callers if cb is not None and cb["_crate"] is bc]
         per = []
-        for cb in callers:
-            for cn, cparents in hir.walk(cb["body"]):
-                if cn.get("k") in ("Call", "MethodCall") and hir.callee(cn) == b["p"]:
-                    per.append(_position_markers_at(prog, cb, cn, cparents, cmap, depth - 1))
+        for cb, cn, cparents in _call_sites(prog, b, cmap):
+            per.append(_position_markers_at(prog, cb, cn, cparents, cmap, depth - 1))
         if per:
             ms |= set.intersection(*per)
     return ms
@@ -696,16 +731,11 @@ def _position_effect(prog, b, node, parents, cmap, depth):
     operands = {(hir.path_local(x) or {}).get("id") for r in (list(node.get("args") or []) + ([node["recv"]] if node.get("recv") else []))
                 for x in hir.nodes(r)}
     if depth > 0 and (operands & param_ids):
-        for c in sorted(cmap.get(b["p"], set()) - {b["p"]}):
-            cb = prog.body(c)
-            if cb is None or cb["_crate"] is not bc:
-                continue
-            for cn, cparents in hir.walk(cb["body"]):
-                if cn.get("k") in ("Call", "MethodCall") and hir.callee(cn) == b["p"]:
-                    roots += _controls(cb, cn, cparents)
+        for cb, cn, cparents in _call_sites(prog, b, cmap):
+            roots += _controls(cb, cn, cparents)
     seen_guard = False
     for r in roots:
-        all_nodes = list(hir.nodes_deep(prog, r, 3, crate=bc))
+        all_nodes = list(hir.nodes_deep(prog, r, 5, crate=bc))
         none_tables = set()
         for x in all_nodes + list(hir.nodes(b["body"])):
             if x.get("k") == "Let" and x["pat"].get("k") == "Binding" and x.get("init") is not None:
@@ -748,6 +778,7 @@ def _only_used_in_global_position(prog, b, lit, parents):
     uses = [(n, ps) for n, ps in hir.walk(b["body"]) if (hir.path_local(n) or {}).get("id") == lid]
     if not uses:
         return False
+    unsure = False
     for n, ps in uses:
         ok = False
         chain = list(ps) + [n]
@@ -757,9 +788,57 @@ def _only_used_in_global_position(prog, b, lit, parents):
                 neg = hir.strip(p["cond"]).get("k") == "Unary"
                 if not neg and ({"Colon", "Of"} <= ms or "NamedType" in ms):
                     ok = True
+            if p.get("k") == "Match" and chain[i + 1] is not p.get("scrut"):
+                # `match name_scope(tokens, index) { Global => &global_table, Enclosing => &scoped }`: the classification is an enum
+                # computed by a local function; the arm is the type-position one if its variant is what that function answers
+                # under its `:`/`of` test
+                ms = _markers_in(prog, p["scrut"], bc)
+                if not ({"Colon", "Of"} <= ms or "NamedType" in ms):
+                    continue
+                arm = chain[i + 1] if chain[i + 1].get("k") == "Arm" else None
+                gv = _position_variant(prog, hir.strip(p["scrut"]), bc)
+                if arm is None or gv is None:
+                    unsure = True
+                    ok = True
+                    continue
+                vs = hir.pat_variants_all(arm["pat"])
+                if vs and all(v == gv for v in vs):
+                    ok = True
         if not ok:
             return False
-    return True
+    return None if unsure else True
+
+
+def _position_variant(prog, call, crate):
+    """The unit enum variant a local classification function answers with where it sees `:` / `of` in front of the identifier."""
+    if call.get("k") not in ("Call", "MethodCall"):
+        return None
+    hb = hir.local_callee_body(prog, call)
+    if hb is None or hb["_crate"] is not crate:
+        return None
+
+    def variant_of(e):
+        e = hir.strip(e)
+        if e.get("k") == "Path":
+            r = e.get("res") or {}
+            if r.get("k") == "Def" and str(r.get("dk", "")).startswith("Ctor(Variant, Const)"):
+                return r.get("ctor_of")
+        return None
+    found = set()
+    for m in hir.nodes(hb["body"], "Match"):
+        for arm in m["arms"]:
+            ms = {last(v) for v in hir.pat_variants_all(arm["pat"]) if v.startswith(TT_)}
+            if {"Colon", "Of"} <= ms:
+                v = variant_of(arm["body"])
+                if v:
+                    found.add(v)
+    for iff in hir.nodes(hb["body"], "If"):
+        ms = _markers_in(prog, iff["cond"], crate)
+        if {"Colon", "Of"} <= ms and hir.strip(iff["cond"]).get("k") != "Unary":
+            v = variant_of(iff["then"])
+            if v:
+                found.add(v)
+    return found.pop() if len(found) == 1 else None
 
 
 # ------------------------------------------------------------------ ENTRY-GUARD / LOOKUP-NOPANIC / ENTRY-KIND
@@ -795,15 +874,36 @@ def rule_entry_guard(prog):
     out = Out("ENTRY-GUARD")
     c = prog.lsp
     n = 0
+    # a generic helper that turns its (type-parameter typed) argument into a text range: its call sites are the sites
+    wrappers = {}
     for b in feature_bodies(prog):
         for call in hir.nodes(b["body"], "MethodCall"):
             if call["m"] != "to_text_range":
                 continue
             rt = hir.peel(c, call["recv"]["t"])
+            for a_ in hir.strip(call["recv"]).get("adj") or []:
+                rt = hir.peel(c, a_["to"]) if hir.peel(c, a_["to"])["k"] in ("param", "adt") else rt
+            rp = hir.path_local(hir.strip_ref(hir.strip(call["recv"])))
+            if rt["k"] == "param" and rp:
+                for j_, q_ in enumerate(b["params"]):
+                    if q_.get("k") == "Binding" and q_["id"] == rp["id"]:
+                        wrappers[b["p"]] = j_
+    for b in feature_bodies(prog):
+        sites = []
+        for call in hir.nodes(b["body"]):
+            if call.get("k") == "MethodCall" and call["m"] == "to_text_range":
+                sites.append((call, call["recv"]))
+            elif call.get("k") == "Call" and (hir.callee(call) or "") in wrappers and wrappers[hir.callee(call)] < len(call["args"]):
+                sites.append((call, call["args"][wrappers[hir.callee(call)]]))
+        for call, recv_ in sites:
+            rt = hir.peel(c, hir.strip(recv_)["t"])
+            for a_ in hir.strip(recv_).get("adj") or []:
+                if hir.peel(c, a_["to"])["k"] == "adt":
+                    rt = hir.peel(c, a_["to"])
             if rt["k"] != "adt" or not rt["p"].startswith("spl_frontend::table::"):
                 continue
             n += 1
-            ep = place(call["recv"])
+            ep = place(hir.strip_ref(hir.strip(recv_)))
             before, anc = _dominating_stmts(b["body"], call)
             guarded = None
             why = ""
@@ -837,9 +937,10 @@ def rule_entry_guard(prog):
                 type_only = False
                 for p in anc:
                     if p.get("k") == "Arm":
-                        pv = hir.pat_variant(p["pat"]) or ""
-                        if last(pv) == "Type" and pv.startswith("spl_frontend::table::"):
-                            bs = list(hir.pat_bindings(p["pat"]))
+                        pvs = [hir.pat_variant(p["pat"]) or ""]
+                        if hir.pat_strip(p["pat"]).get("k") == "Binding":      # `entry @ Entry::Type(_)`
+                            pvs = hir.pat_variants_all(p["pat"])
+                        if pvs and all(last(pv) == "Type" and pv.startswith("spl_frontend::table::") for pv in pvs):
                             # the arm must destructure *this* entry
                             type_only = True
                 if int_ret and type_only:
@@ -949,7 +1050,7 @@ def rule_entry_kind(prog):
 
 # ------------------------------------------------------------------ LEN-UNITS
 
-def _len_unit(c, e):
+def _len_unit(c, e, _depth=0):
     """Unit of a length expression: 'byte' | 'char' | 'utf16' | None."""
     e = hir.strip(e)
     k = e.get("k")
@@ -986,12 +1087,23 @@ def _len_unit(c, e):
         d = hir.callee(e) or ""
         if last(d) in ("from", "try_from") and e["args"]:
             return _len_unit(c, e["args"][0])
+    if k in ("Call", "MethodCall") and _LEN_PROG.get("prog") is not None and _depth < 3:
+        # a local helper that is nothing but a length computation (`fn utf16_length(token, text) -> u32 { text[..].encode_utf16().count().. }`)
+        hb = hir.local_callee_body(_LEN_PROG["prog"], e)
+        if hb is not None and hb["_crate"] is c and hb["k"] in ("fn", "assoc_fn"):
+            hbody = hir.strip(hb["body"])      # (strip() removes a statement-less block)
+            if hbody.get("k") != "BlockExpr":
+                return _len_unit(c, hbody, _depth + 1)
     return None
+
+
+_LEN_PROG = {}
 
 
 def rule_len_units(prog):
     """Lengths in bytes, chars and UTF-16 units are all `usize`; mixing them is a defect for non-ASCII text."""
     out = Out("LEN-UNITS")
+    _LEN_PROG["prog"] = prog
     n = 0
     for b in prog.bodies():
         c = b["_crate"]
@@ -1098,62 +1210,134 @@ def rule_semtok_pairing(prog):
         out.add(hb["d"], "the tokens behind the last declaration are visited", covered, c.loc(hb["sp"]),
                 "semantic tokens are produced per global declaration only: a comment behind the last declaration (or in a document without "
                 "declarations) belongs to no declaration and never gets its `comment` token", ("tail",))
-    units = []
-    for b in fns:
-        prev = None
-        for p in b["params"]:
-            if p.get("k") == "Binding" and c.tstr(p["bt"]).replace(" ", "") in ("&mutlsp_types::Position",):
-                prev = "%s#%s" % (p["name"], p["id"])
-        units.append((b, prev, None))
-    if tail_clo is not None:
-        hb, cl = tail_clo
-        prev = None
-        for a_ in hir.nodes(cl["body"], "Assign"):
-            if "Position" in c.tstr(hir.strip(a_["l"])["t"]):
-                prev = place(a_["l"])
-        units.append((hb, prev, cl))
-    for b, prev, only_clo in units:
-        clos = [only_clo] if only_clo is not None else [n for n in hir.nodes(b["body"], "Closure")]
-        if prev is None or not clos:
-            out.add(b["d"], "delta base is threaded through the token closure", None, c.loc(b["sp"]))
+    # The delta base: a Position that is assigned inside the per-token code (a closure handed to an iterator adaptor, or the body of
+    # a loop over the tokens).  Wherever the module assigns such a Position:
+    #   - it is assigned once per token, under the test that this token produced a semantic token (`x.is_some()` on the value the
+    #     closure yields, or `if let Some(x) = <classification>` whose binding is what is emitted),
+    #   - the new value is as_position(<that token>.range.start, ..).
+    asp = roles.conv(prog).get("as_position")
+    mod_bodies = [b for b in c.bodies if b["p"].startswith("lsp4spl::features::semantic_tokens::") and b["k"] in ("fn", "assoc_fn")
+                  and "/tests" not in c.file_of(b["sp"])]
+
+    def is_position(e):
+        e_ = hir.strip(e)
+        return c.tstr(e_["t"]).replace(" ", "") == "lsp_types::Position"
+
+    n_units = 0
+    for b in mod_bodies:
+        by_scope = {}
+        for n, parents in hir.walk(b["body"]):
+            if n.get("k") != "Assign" or not is_position(n["l"]):
+                continue
+            scope = None
+            for pr in reversed(parents):
+                if pr.get("k") in ("Closure", "ForLoop", "While", "Loop"):
+                    scope = pr
+                    break
+            if scope is None:
+                continue
+            by_scope.setdefault(id(scope), (scope, []))[1].append((n, list(parents)))
+        for scope, assigns in by_scope.values():
+            n_units += 1
+            prev = place(assigns[0][0]["l"])
+            same = [x for x in assigns if place(x[0]["l"]) == prev]
+            ok = len(same) == 1 and len(assigns) == 1
+            loc_ = c.loc(assigns[0][0]["sp"])
+            if ok:
+                n, parents = assigns[0]
+                inner = parents[[i_ for i_, p_ in enumerate(parents) if p_ is scope][0] + 1:]
+                # the token of this iteration
+                toks = set()
+                pats = list(scope.get("params") or []) + ([scope["pat"]] if scope.get("pat") else [])
+                for pp in pats:
+                    for bd in hir.pat_bindings(pp):
+                        if hir.adt_path(c, bd["bt"]) == "spl_frontend::tokens::Token":
+                            toks.add("%s#%s" % (bd["name"], bd["id"]))
+                r = hir.strip(n["r"])
+                pos_ok = r.get("k") == "Call" and asp is not None and (hir.callee(r) or "") == asp["p"] and \
+                    any((place(r["args"][0]) or "") == "%s.range.start" % t_ for t_ in toks)
+                # the guard
+                body_ = scope["body"]
+                blk = hir.strip(body_)
+                blk = blk["b"] if blk.get("k") == "BlockExpr" else None
+                tail = place(blk["expr"]) if blk and blk.get("expr") and scope.get("k") == "Closure" else None
+                g_ok = False
+                for g in [p_ for p_ in inner if p_.get("k") == "If"]:
+                    cond = hir.strip(g["cond"])
+                    in_then = any(x is n for x in hir.nodes(g["then"]))
+                    if not in_then:
+                        continue
+                    if cond.get("k") == "MethodCall" and cond["m"] == "is_some" and tail is not None and place(cond["recv"]) == tail:
+                        g_ok = True
+                    if cond.get("k") == "LetExpr" and any(v.endswith("Option::Some") for v in hir.pat_variants_all(cond["pat"])):
+                        bds = ["%s#%s" % (bd["name"], bd["id"]) for bd in hir.pat_bindings(cond["pat"])]
+                        # ... and the bound token is what is emitted: pushed / extended / yielded in the same branch
+                        emitted = any(x.get("k") == "MethodCall" and x["m"] in ("push", "extend", "push_back", "insert") and
+                                      any(place(a_) in bds for a_ in x["args"]) for x in hir.nodes(g["then"])) or \
+                            any(x.get("k") == "Call" and last(hir.path_def(x["f"]).get("ctor_of", "") if hir.path_def(x["f"]) else "") == "Some" and
+                                any(place(a_) in bds for a_ in x["args"]) for x in hir.nodes(g["then"]))
+                        produces = "SemanticToken" in c.tstr(hir.strip(cond["init"])["t"])
+                        if emitted and produces:
+                            g_ok = True
+                ok = g_ok and pos_ok
+            out.add(b["d"], "previous position advances exactly when a semantic token is emitted, to that token's start", ok, loc_,
+                    "delta encoding is stateful: the base must be updated iff a token is emitted for this source token, with the start of that token")
+    if n_units < 1:
+        out.missing("assignments to the delta base (a Position) in per-token code of features::semantic_tokens (found %d)" % n_units)
+    # every delta is computed against the current base: the Position handed to a token constructor (a function of the module that
+    # yields a SemanticToken and takes a Position) is the threaded `&mut Position` parameter / the handler's base variable, read at
+    # the time of the call - not a copy taken earlier and not a fresh value
+    ctors = {}
+    for b in mod_bodies:
+        if "sig_in" not in b or "SemanticToken" not in c.tstr(b["sig_out"]) or "Vec<" in c.tstr(b["sig_out"]):
             continue
-        clo = clos[0]
-        blk = hir.strip(clo["body"])
-        blk = blk["b"] if blk.get("k") == "BlockExpr" else None
-        tail = place(blk["expr"]) if blk and blk.get("expr") else None
-        assigns = []
-        for n, parents in hir.walk(clo["body"]):
-            if n.get("k") == "Assign" and place(n["l"]) == prev:
-                guards = [p for p in parents if p.get("k") == "If"]
-                assigns.append((n, guards))
-        ok = len(assigns) == 1
-        if ok:
-            n, guards = assigns[0]
-            g_ok = False
-            for g in guards:
-                cond = hir.strip(g["cond"])
-                if cond.get("k") == "MethodCall" and cond["m"] == "is_some" and place(cond["recv"]) == tail and hir.strip(g["then"]) and \
-                        any(x is n for x in hir.nodes(g["then"])):
-                    g_ok = True
-            # the new base is the position of the very token that was emitted
-            tok = None
-            for pp in clo["params"]:
-                for bd in hir.pat_bindings(pp):
-                    if hir.adt_path(c, bd["bt"]) == "spl_frontend::tokens::Token":
-                        tok = "%s#%s" % (bd["name"], bd["id"])
-            r = hir.strip(n["r"])
-            asp = roles.conv(prog).get("as_position")
-            pos_ok = r.get("k") == "Call" and asp is not None and (hir.callee(r) or "") == asp["p"] and \
-                (place(r["args"][0]) or "") == "%s.range.start" % tok
-            ok = g_ok and pos_ok
-        out.add(b["d"], "previous position advances exactly when a semantic token is emitted, to that token's start", ok,
-                c.loc(assigns[0][0]["sp"]) if assigns else c.loc(b["sp"]),
-                "delta encoding is stateful: the base must be updated iff the closure yields Some, with the start of the emitted token")
-        # every delta is computed against *previous_token_pos
-        calls = [n for n in hir.nodes(clo["body"], "Call") if (hir.callee_display(n) or "").split("::")[-1] in ("create_semantic_token", "map_token")]
-        good = all(place(n["args"][1]) == prev for n in calls)
-        out.add(b["d"], "every token delta is computed against the threaded previous position", bool(calls) and good, c.loc(b["sp"]),
-                "%d token constructor call(s)" % len(calls))
+        for j_, t_ in enumerate(b["sig_in"]):
+            if c.tstr(t_).replace(" ", "").lstrip("&") in ("lsp_types::Position", "mutlsp_types::Position"):
+                ctors[b["p"]] = j_
+    n_calls = 0
+    for b in mod_bodies:
+        base_params = set()
+        for p_ in b["params"]:
+            if p_.get("k") == "Binding" and "lsp_types::Position" in c.tstr(p_["bt"]):
+                base_params.add(p_["id"])
+        base_locals = set()
+        for n, parents in hir.walk(b["body"]):
+            if n.get("k") == "Assign" and is_position(n["l"]):
+                pl_ = hir.path_local(hir.strip(n["l"]))
+                if pl_:
+                    base_locals.add(pl_["id"])
+        for n, parents in hir.walk(b["body"]):
+            if n.get("k") != "Call" or (hir.callee(n) or "") not in ctors:
+                continue
+            j_ = ctors[hir.callee(n)]
+            if j_ >= len(n["args"]):
+                continue
+            n_calls += 1
+            a_ = hir.strip_ref(hir.strip(n["args"][j_]))
+            while a_.get("k") == "Unary" and a_.get("op") in ("*", "Deref"):
+                a_ = hir.strip_ref(hir.strip(a_["e"]))
+            clos = [p_ for p_ in parents if p_.get("k") == "Closure"]
+            verdict = None
+            pl_ = hir.path_local(a_)
+            if a_.get("k") in ("Call", "Struct", "MethodCall"):
+                verdict = False
+            elif pl_:
+                if pl_["id"] in base_params or pl_["id"] in base_locals:
+                    verdict = True
+                else:
+                    # a parameter of the enclosing per-token closure that receives the base at each call (generic walker)?
+                    cl_params = set(bd["id"] for cl in clos for pp in cl.get("params") or [] for bd in hir.pat_bindings(pp))
+                    if pl_["id"] in cl_params:
+                        verdict = None
+                    else:
+                        # a local: where was it bound?  inside the per-token closure from the base -> fine; outside -> stale copy
+                        inner_lets = set(l_["pat"]["id"] for cl in clos for l_ in hir.nodes(cl["body"], "Let") if l_["pat"].get("k") == "Binding")
+                        verdict = None if (pl_["id"] in inner_lets or not clos) else False
+            out.add(b["d"], "every token delta is computed against the threaded previous position", verdict, c.loc(n["sp"]),
+                    "a token constructor is handed a Position that is not the running delta base (a fresh value or a copy taken before the "
+                    "per-token code ran): the deltas of all tokens but the first are wrong")
+    if n_calls < 3:
+        out.missing("calls of the semantic token constructors with a delta base (found %d)" % n_calls)
     return out
 
 
@@ -1246,30 +1430,79 @@ def rule_fmt_pure(prog):
     if ok is True and n_news != 2:
         ok = False
     out.add("formatting::format", "indentation unit follows insertSpaces/tabSize", ok, c.loc(f["sp"]), detail)
-    # null iff nothing changes; edit covers the whole document
-    ok = False
-    for n in hir.nodes(f["body"], "If"):
-        cond = hir.strip(n["cond"])
-        if cond.get("k") == "Binary" and cond["op"] == "==":
-            names = sorted((place(cond["l"]) or "?").split("#")[0] for _ in [0]) + sorted((place(cond["r"]) or "?").split("#")[0] for _ in [0])
-            if set(names) == {"new_text", "text"}:
-                then_none = any(last(p["res"].get("ctor_of", "")) == "None" for p in hir.nodes(n["then"], "Path"))
-                else_edit = any((s.get("adt") or "").endswith("TextEdit") for s in hir.nodes(n.get("else") or {}, "Struct"))
-                # early-return form: `if new_text == text { return Ok(None); }` followed by the edit
-                early = then_none and any(True for _ in hir.nodes(n["then"], "Ret")) and not n.get("else") and \
-                    any((s.get("adt") or "").endswith("TextEdit") for s in hir.nodes(f["body"], "Struct"))
-                ok = (then_none and else_edit) or early
-    out.add("formatting::format", "returns null exactly when the formatted text equals the document", ok, c.loc(f["sp"]), "")
+    # null iff nothing changes; edit covers the whole document.  Decided on the handler and the helpers of the formatting module
+    # it calls; the two texts are told apart by role: the new text is the one that becomes TextEdit.new_text
+    def is_str(e):
+        e_ = hir.strip(e)
+        t_ = c.tstr(e_["t"]) + "".join(c.tstr(a_["to"]) for a_ in e_.get("adj") or [])
+        return "String" in t_ or "str" in t_
+
+    def base_place(e):
+        e_ = hir.strip_ref(hir.strip(e))
+        while e_.get("k") == "MethodCall" and e_["m"] in ("as_str", "clone", "to_string", "to_owned", "as_ref", "borrow", "deref") and not e_["args"]:
+            e_ = hir.strip_ref(hir.strip(e_["recv"]))
+        while e_.get("k") == "Unary" and e_.get("op") in ("*", "Deref"):
+            e_ = hir.strip_ref(hir.strip(e_["e"]))
+        return place(e_)
+
+    verdict, n_cmp = None, 0
+    old_places = set()
+    for rb in reach:
+        edits = [s_ for s_ in hir.nodes(rb["body"], "Struct") if (s_.get("adt") or "").endswith("TextEdit")]
+        new_places = set()
+        for s_ in edits:
+            for fl_ in s_["fields"]:
+                if fl_["name"] == "new_text":
+                    new_places.add(base_place(fl_["e"]))
+        for n in hir.nodes(rb["body"], "If"):
+            cond = hir.strip(n["cond"])
+            if not (cond.get("k") == "Binary" and cond["op"] in ("==", "!=") and is_str(cond["l"]) and is_str(cond["r"])):
+                continue
+            sides = {base_place(cond["l"]), base_place(cond["r"])}
+            if None in sides or not (sides & new_places) or len(sides) != 2:
+                continue
+            n_cmp += 1
+            old_places |= sides - new_places
+            eq_branch, ne_branch = (n["then"], n.get("else")) if cond["op"] == "==" else (n.get("else"), n["then"])
+            eq_none = eq_branch is not None and any(last(p_["res"].get("ctor_of", "")) == "None" for p_ in hir.nodes(eq_branch, "Path")) \
+                and not any(s_ in edits for s_ in hir.nodes(eq_branch, "Struct"))
+            ne_edit = ne_branch is not None and any(s_ in edits for s_ in hir.nodes(ne_branch, "Struct"))
+            # early-return form: `if new == old { return None }` followed by the edit
+            early = eq_none and ne_branch is None and eq_branch is n["then"] and any(True for _ in hir.nodes(n["then"], "Ret")) and bool(edits)
+            this = (eq_none and ne_edit) or early
+            if eq_branch is not None and any(s_ in edits for s_ in hir.nodes(eq_branch, "Struct")):
+                this = False
+            verdict = this if verdict is None else (verdict and this)
+    if verdict is None and not any((s_.get("adt") or "").endswith("TextEdit") for rb in reach for s_ in hir.nodes(rb["body"], "Struct")):
+        out.missing("TextEdit built by formatting::format or its helpers")
+    if verdict is None and n_cmp == 0:
+        # no comparison of the new text with the document in `if` form: unconditional edit (violation) or a form not followed here
+        any_cmp = any(x.get("k") == "Binary" and x["op"] in ("==", "!=") and is_str(x["l"]) and is_str(x["r"])
+                      for rb in reach for x in hir.nodes(rb["body"], "Binary"))
+        verdict = None if any_cmp else False
+    out.add("formatting::format", "returns null exactly when the formatted text equals the document", verdict, c.loc(f["sp"]),
+            "no `null` for an unchanged document (or `null` for a changed one): the client applies an edit that changes nothing, or keeps "
+            "the unformatted text")
     apr = roles.conv(prog).get("as_pos_range")
-    rng = [n for n in hir.nodes(f["body"], "Call") if apr is not None and (hir.callee(n) or "") == apr["p"]]
-    ok = False
-    for n in rng:
-        r = hir.strip_ref(n["args"][0])
-        if r.get("k") == "Struct":
+    ok = None
+    n_rng = 0
+    for rb in reach:
+        for n in hir.nodes(rb["body"], "Call"):
+            if apr is None or (hir.callee(n) or "") != apr["p"]:
+                continue
+            n_rng += 1
+            r = hir.strip_ref(n["args"][0])
+            if r.get("k") != "Struct":
+                continue
             fl = {x["name"]: x["e"] for x in r["fields"]}
-            ok = hir.lit_value(fl.get("start", {})) == "0" and hir.strip(fl.get("end", {})).get("k") == "MethodCall" and \
-                hir.strip(fl["end"])["m"] == "len" and (place(hir.strip(fl["end"])["recv"]) or "").split("#")[0] == "text" and \
-                (place(n["args"][1]) or "").split("#")[0] == "text"
+            en = hir.strip(fl.get("end", {}))
+            this = hir.lit_value(fl.get("start", {})) == "0" and en.get("k") == "MethodCall" and en["m"] == "len" and is_str(en["recv"])
+            if this:
+                whose = base_place(en["recv"])
+                this = whose is not None and whose == base_place(n["args"][1]) and (not old_places or whose in old_places)
+            ok = this if ok is None else (ok and this)
+    if n_rng == 0:
+        ok = False
     out.add("formatting::format", "the edit replaces exactly the whole document (0..text.len())", ok, c.loc(f["sp"]), "")
     return out
 
@@ -1307,6 +1540,22 @@ def rule_comment_pairing(prog):
         st = c.ty(b["impl_self"])
         return last(st["p"]) if st["k"] == "adt" and st["p"].startswith("spl_frontend::ast::") else None
 
+    def type_label(e):
+        """('adt', AST node name) | ('param', name) | None for the node an expression denotes (behind &, Box, Reference<..>)"""
+        e = hir.strip(e)
+        t = hir.peel(c, e["t"])
+        for a in e.get("adj") or []:
+            t = hir.peel(c, a["to"])
+        hops = 0
+        while t["k"] == "adt" and last(t["p"]) in ("Reference", "Box") and t.get("a") and hops < 3:
+            t = hir.peel(c, int(t["a"][0]))
+            hops += 1
+        if t["k"] == "adt":
+            return ("adt", last(t["p"]))
+        if t["k"] == "param":
+            return ("param", t.get("n"))
+        return None
+
     seen = 0
     for b in c.bodies:
         if not b["p"].startswith("lsp4spl::features::formatting") or b["p"] in helper_ps or "/tests" in c.file_of(b["sp"]) or b["k"] == "closure":
@@ -1323,26 +1572,47 @@ def rule_comment_pairing(prog):
             which = roles.classify_comment_call(prog, n)
             # node type the helper is applied for: type of the formatted node in the String argument
             first = hir.strip(n["args"][0])
-            label = node
+            # (the text may be rendered one statement earlier: `let text = node.fmt(..); helper(text, ..)`)
+            pl_first = hir.path_local(first)
+            if pl_first:
+                for l_ in hir.nodes(b["body"], "Let"):
+                    if l_["pat"].get("k") == "Binding" and l_["pat"]["id"] == pl_first["id"] and "Mut" not in l_["pat"]["mode"] and l_.get("init") is not None:
+                        first = hir.strip(l_["init"])
+            labels = [(node, n)]
             if first.get("k") == "MethodCall" and first["m"] == "fmt":
-                t = hir.peel(c, first["recv"]["t"])
-                for a in first["recv"].get("adj") or []:
-                    t = hir.peel(c, a["to"])
-                if t["k"] == "adt":
-                    label = last(t["p"]) if last(t["p"]) != "Reference" else last(c.ty(int(t["a"][0]))["s"])
+                lb_ = type_label(first["recv"])
+                if lb_ is not None and lb_[0] == "adt":
+                    labels = [(lb_[1], n)]
+                elif lb_ is not None and lb_[0] == "param":
+                    # a generic wrapper (`fn with_comments<T: Format>(node: &T, ..)`): the node printed is the one handed in at each
+                    # call site of the wrapper
+                    labels = []
+                    rp = hir.path_local(hir.strip_ref(hir.strip(first["recv"])))
+                    j_ = next((k_ for k_, q_ in enumerate(b["params"]) if rp and q_.get("k") == "Binding" and q_["id"] == rp["id"]), None)
+                    if j_ is not None:
+                        for y_ in c.bodies:
+                            if not y_["p"].startswith("lsp4spl::features::formatting") or "/tests" in c.file_of(y_["sp"]):
+                                continue
+                            for m_ in hir.nodes(y_["body"], "Call"):
+                                if hir.callee(m_) == b["p"] and j_ < len(m_["args"]):
+                                    sl_ = type_label(m_["args"][j_])
+                                    labels.append((sl_[1] if sl_ and sl_[0] == "adt" else None, m_))
+                    if not labels:
+                        labels = [(None, n)]
             elif hir.lit_value(first) is not None or (first.get("k") == "MethodCall" and hir.lit_value(hir.strip(first["recv"])) is not None):
-                label = (node or "?") + "::Empty"
-            if label is None:
-                out.add(b["d"], "comment helper application", None, c.loc(n["sp"]), "cannot tell which node is printed here")
-                continue
-            toks = own.get(label.split("::")[0], [])
-            composite = len(toks) >= 2
-            seen += 1
-            ok = None if which is None else (which == "all" or not composite)
-            out.add("Format for " + label.split("::")[0], "comments inside %s are kept" % label, ok, c.loc(n["sp"]),
-                    "`%s` has %d own tokens (%s); its parser skips comments in front of each of them, but the formatter only "
-                    "re-attaches the comments in front of the first token: every other comment inside is lost"
-                    % (label, len(toks), ", ".join(toks)), (label.split("::")[0],))
+                labels = [((node or "?") + "::Empty", n)]
+            for label, site in labels:
+                if label is None:
+                    out.add(b["d"], "comment helper application", None, c.loc(site["sp"]), "cannot tell which node is printed here")
+                    continue
+                toks = own.get(label.split("::")[0], [])
+                composite = len(toks) >= 2
+                seen += 1
+                ok = None if which is None else (which == "all" or not composite)
+                out.add("Format for " + label.split("::")[0], "comments inside %s are kept" % label, ok, c.loc(site["sp"]),
+                        "`%s` has %d own tokens (%s); its parser skips comments in front of each of them, but the formatter only "
+                        "re-attaches the comments in front of the first token: every other comment inside is lost"
+                        % (label, len(toks), ", ".join(toks)), (label.split("::")[0],))
     # the helpers themselves: which comments of the slice are re-attached depends on the token kind (and, for the leading form, on the
     # position) only.  A further selecting adaptor whose closure does not test TokenType::Comment drops comments by their text
     SELECT = ("filter", "filter_map", "skip_while", "take_while", "map_while", "skip", "take", "step_by", "dedup", "dedup_by_key", "retain")
@@ -1650,10 +1920,22 @@ def rule_same_finder(prog):
         if b is None:
             continue
         conds = []
+        # the value the function ends with (the tail expression of its block, through `async` desugaring)
+        tail_ = hir.strip(b["body"])
+        for _ in range(6):
+            if tail_.get("k") == "Closure":
+                tail_ = hir.strip(tail_["body"])
+            elif tail_.get("k") == "BlockExpr" and tail_["b"].get("expr") is not None:
+                tail_ = hir.strip(tail_["b"]["expr"])
+            else:
+                break
         for iff in hir.nodes(b["body"], "If"):
             if hir.strip(iff["cond"]).get("k") == "LetExpr":
                 continue
             rets = [r for r in hir.nodes(iff["then"], "Ret")]
+            if not rets and iff is tail_ and iff.get("else") is not None:
+                # `if c { Ok(Some(..)) } else { Ok(None) }` as the function's value: the branches answer directly
+                rets = [iff["then"]]
             returns_none = any(any(last(pth["res"].get("ctor_of", "")) == "None" for pth in hir.nodes(r, "Path")) for r in rets)
             returns_some = any(any(last(pth["res"].get("ctor_of", "")) == "Some" for pth in hir.nodes(r, "Path")) for r in rets) and not returns_none
             # canonical form: the condition under which nothing is answered.  `if !c { return None }` and
